@@ -1,14 +1,18 @@
 #!/bin/bash
-# usage: tools/verify_seed.sh <patch.diff> <demo.py> [pytest|script]
-# In a scratch worktree of /repo: the patch applies, the pinned suite keeps its 513 baseline passes,
-# the demo fails with the patch and passes without it.  Prints a one-line verdict.
-patch=$(readlink -f "$1"); demo=$(readlink -f "$2"); mode=${3:-pytest}
+# usage: tools/verify_seed.sh <seed dir> [pytest|script]
+# In a scratch worktree of /repo (HEAD): the patch applies, the pinned suite keeps its 513 baseline
+# passes with it, the demonstration fails with the patch and passes without it.
+# Baseline tests that fail in the full run are re-run alone once (the test_server_* tests start a
+# server subprocess and are timing sensitive when the machine is busy); only those that fail
+# again count.  Prints a verdict line and writes <seed dir>/verified.json.
+dir=$(readlink -f "$1"); mode=${2:-pytest}
+patch="$dir/patch.diff"; demo="$dir/demo.py"
 wt=$(mktemp -d /tmp/seedchk.XXXX); rmdir "$wt"
 git -C /repo worktree add -q --detach "$wt" HEAD || exit 2
 cd "$wt"
 rundemo() { if [ "$mode" = pytest ]; then /venv/bin/python -m pytest -q -p no:cacheprovider "$demo" >/dev/null 2>&1; else /venv/bin/python "$demo" >/dev/null 2>&1; fi; echo $?; }
 base=$(rundemo)
-git apply "$patch" || { echo "PATCH-DOES-NOT-APPLY"; git -C /repo worktree remove --force "$wt"; exit 2; }
+git apply "$patch" || { echo "PATCH-DOES-NOT-APPLY"; cd /; git -C /repo worktree remove --force "$wt"; exit 2; }
 with=$(rundemo)
 /venv/bin/python -m pytest -q -p no:cacheprovider --timeout=900 --continue-on-collection-errors --junitxml=$wt/junit.xml >/dev/null 2>&1
 missing=$(python3 - "$wt/junit.xml" <<'PY'
@@ -17,9 +21,21 @@ base=set(json.load(open('/root/.vp/BASELINE.json'))['stable_pass'])
 passed=set()
 for tc in ET.parse(sys.argv[1]).iter('testcase'):
     if not any(c.tag in('failure','error','skipped') for c in tc): passed.add(f"{tc.get('classname')}::{tc.get('name')}")
-print(len(base-passed))
+for m in sorted(base-passed):
+    mod, _, name = m.partition("::")
+    print(mod.replace(".", "/") + ".py::" + name)
 PY
 )
+still=""
+for t in $missing; do
+  /venv/bin/python -m pytest -q -p no:cacheprovider --timeout=900 "$t" >/dev/null 2>&1 || still="$still $t"
+done
+nstill=$(echo $still | wc -w)
+head=$(git -C /repo rev-parse --short HEAD)
 cd /; git -C /repo worktree remove --force "$wt"
-echo "missing_tests: $(python3 - "$wt/junit.xml" 2>/dev/null)"; echo "demo_without_patch_exit=$base demo_with_patch_exit=$with baseline_tests_not_passing=$missing"
-[ "$base" = 0 ] && [ "$with" != 0 ] && [ "$missing" = 0 ] && echo SEED-OK || echo SEED-REJECTED
+echo "demo_without_patch_exit=$base demo_with_patch_exit=$with baseline_tests_failing_in_full_run=[$(echo $missing)] still_failing_alone=[$(echo $still)]"
+ok=false; [ "$base" = 0 ] && [ "$with" != 0 ] && [ "$nstill" = 0 ] && ok=true
+cat > "$dir/verified.json" <<EOF
+{"repo_head": "$head", "demo_mode": "$mode", "demo_without_patch_exit": $base, "demo_with_patch_exit": $with, "baseline_tests_failing_in_full_run": "$(echo $missing)", "baseline_tests_failing_when_rerun_alone": "$(echo $still)", "seed_ok": $ok}
+EOF
+$ok && echo SEED-OK || echo SEED-REJECTED
